@@ -142,6 +142,49 @@ pub fn run(ctx: &Ctx) -> i32 {
         });
     }
 
+    // loadable but irregular nesting (levels that skip, e.g. 0 -> 2): outside the reference model,
+    // inside C19's quantifier ("all loadable sprites"); direct oracle only
+    if ctx.wants_family("loose-levels") {
+        let mut seqs: Vec<Vec<u16>> = Vec::new();
+        for n in 1..=4usize {
+            for v in product_vec(&vec![4usize; n]) {
+                seqs.push(v.iter().map(|x| *x as u16).collect());
+            }
+        }
+        ctx.family("loose-levels", seqs.len() as u64 * 16, "every child-level sequence of length <= 4 over {0,1,2,3} (forest or not) x every visible-flag assignment, image layers each with a distinct cel, 2 frames; whatever loads must satisfy the direct checks (routes agree, single-visible-layer frame == cel image)", true);
+        seqs.par_iter().for_each(|lv| {
+            let n = lv.len();
+            for vis in 0..(1u32 << n) {
+                let case = || format!("levels={:?} vis={:b}", lv, vis);
+                if !ctx.wants("loose-levels", &case) {
+                    continue;
+                }
+                let mut f = gen::file(4, 3, &fmt, &[10, 20]);
+                for (i, l) in lv.iter().enumerate() {
+                    let mut ly = Layer::image(&format!("l{}", i));
+                    ly.level = *l;
+                    ly.flags = if vis >> i & 1 == 1 { 3 } else { 2 };
+                    f.frames[0].push(Body::Layer(ly));
+                }
+                for i in 0..n {
+                    f.frames[i % 2].push(raw_cel(i as u16, (i % 3) as i16, (i % 2) as i16, 255, 2, 2, opaque_pixels(&fmt, 2, 2, i as u32 + 1, (0, 0))));
+                }
+                let bytes = f.encode();
+                ctx.eval(1);
+                if let Loaded::Ok(file) = load(&bytes) {
+                    let mut w = Want::all();
+                    w.pal_probes = vec![0];
+                    let o = crate::observe::observe(&file, &w);
+                    ctx.outcome(hash64(&o));
+                    let problem = direct_checks(&o).or_else(|| o.panics.first().map(|(l, m)| format!("{} panicked: {}", l, m)));
+                    if let Some(msg) = problem {
+                        ctx.violation(Violation { family: "loose-levels".into(), case: case(), sig: format!("direct:{}", sig_of(&msg)), detail: msg, bytes: Some(bytes), extra: json!({}) });
+                    }
+                }
+            }
+        });
+    }
+
     // the corpus files through the direct checks as well
     if ctx.wants_family("corpus-direct") {
         let dir = std::path::Path::new("/repo/tests/data");
